@@ -24,7 +24,7 @@
 From Coq Require Import NArith List Bool String.
 From Verif Require Import Base.Chars Imports.Import Imports.ImportSet Imports.ImportSetProofs
                           Scope.PySyntax Scope.Finder Scope.PySem Scope.Fragment Scope.Remove Scope.UnusedProofs Scope.RemoveProofs
-                          ImportSem.BlockEnv ImportSem.BlockEnvProofs Scope.Stage2Unused Scope.EndToEnd.
+                          ImportSem.BlockEnv ImportSem.BlockEnvProofs Scope.Stage2Unused Scope.DocUnused Scope.EndToEnd.
 Import ListNotations.
 Local Open Scope string_scope.
 
@@ -165,10 +165,18 @@ Theorem C02_tidy_remove_preserves_trace_stage2 : forall bi ns p, u2_block p = tr
               lookup_b x (final_globals bi ns (tidy_remove bi ns p)) = Some b.
 Proof. exact tidy_remove_preserves_trace_stage2. Qed.
 Print Assumptions C02_tidy_remove_preserves_trace_stage2.
-(* the same with the report fix_unused_and_missing_imports computes (parse_docstrings=True) and the trace that includes
-   doctest examples (the docstring / string statements of a stage-2 program hold no doctest example and no {brace}
-   identifier, so the two reports and the two traces coincide) *)
-Theorem C02_tidy_fix_preserves_trace_stage2 : forall bi ns p, u2_block p = true -> star_free bi ns = true ->
+(* the same with the report fix_unused_and_missing_imports really computes (parse_docstrings=True: the doctest examples
+   are scanned after the module, then the {brace} identifiers are looked up, then the module scope's unused imports are
+   reported) and the trace that includes the doctest examples.  The docstrings may stand anywhere a string statement may
+   (module, def bodies, after assignments); every doctest example is a load-only expression statement
+   (Fragment.dx_docs: names, attribute chains, operators / calls); {brace} identifiers are unrestricted. *)
+Theorem C02_unused_sound_doc_stage2 : forall bi ns p, u2_block p = true -> dx_docs p = true -> star_free bi ns = true ->
+  imports_once bi ns p = true -> NoDup (imp_events (bsrcs_block false p)) ->
+  forall l i, In (l, i) (snd (finder_doc bi ns p)) ->
+  forall ln n, ~ In (ln, n, Bound (BImp l i)) (pysem_doc bi ns p).
+Proof. exact u2_doc_unused_sound. Qed.
+Print Assumptions C02_unused_sound_doc_stage2.
+Theorem C02_tidy_fix_preserves_trace_stage2 : forall bi ns p, u2_block p = true -> dx_docs p = true -> star_free bi ns = true ->
   imports_once bi ns p = true -> NoDup (imp_events (bsrcs_block false p)) ->
   pysem_doc bi ns (remove_top (in_report (snd (finder_doc bi ns p))) p) = pysem_doc bi ns p.
 Proof. exact tidy_fix_preserves_trace_stage2. Qed.
@@ -231,7 +239,13 @@ Theorem C02_tidy_remove_preserves_trace_stage3 : forall bi ns p, u3_block p = tr
               lookup_b x (final_globals bi ns (tidy_remove bi ns p)) = Some b.
 Proof. exact tidy_remove_preserves_trace_stage3. Qed.
 Print Assumptions C02_tidy_remove_preserves_trace_stage3.
-Theorem C02_tidy_fix_preserves_trace_stage3 : forall bi ns p, u3_block p = true -> star_free bi ns = true ->
+Theorem C02_unused_sound_doc_stage3 : forall bi ns p, u3_block p = true -> dx_docs p = true -> star_free bi ns = true ->
+  imports_once bi ns p = true -> NoDup (imp_events (bsrcs_block false p)) ->
+  forall l i, In (l, i) (snd (finder_doc bi ns p)) ->
+  forall ln n, ~ In (ln, n, Bound (BImp l i)) (pysem_doc bi ns p).
+Proof. exact u3_doc_unused_sound. Qed.
+Print Assumptions C02_unused_sound_doc_stage3.
+Theorem C02_tidy_fix_preserves_trace_stage3 : forall bi ns p, u3_block p = true -> dx_docs p = true -> star_free bi ns = true ->
   imports_once bi ns p = true -> NoDup (imp_events (bsrcs_block false p)) ->
   pysem_doc bi ns (remove_top (in_report (snd (finder_doc bi ns p))) p) = pysem_doc bi ns p.
 Proof. exact tidy_fix_preserves_trace_stage3. Qed.
@@ -255,7 +269,38 @@ Example C02_nonvacuous_stage3 :
   In (4%nat, 131, Bound (BImp 1 ([130], [131]))) (pysem [] [[]] P_u3) /\ In (5%nat, 138, Unbound) (pysem [] [[]] P_u3).
 Proof. vm_compute. repeat split; auto 20. Qed.
 
-(* docstrings without doctest examples are inside the fragments *)
-Example C02_plain_docstring_in_fragment :
-  u3_block [SDoc 1 [] []; SImport 2 [([150], None)]; SDef 3 151 [] P0 None [SDoc 4 [] []; SExpr 5 (ELoad 150 [152])]] = true.
-Proof. reflexivity. Qed.
+(* docstrings are inside the fragments; non-vacuity of the doctest theorems:
+     """doc {d}            line 1: the module docstring names d in braces, its example reads a
+     >>> a.x               (example line 2)
+     """
+     import m as a         line 4: read only by the doctest example
+     import n as b         line 5: unused
+     import q as d         line 6: named only in braces
+     def f():              line 7
+         """doc            line 8: a function docstring
+         >>> g(a)          (example line 9): g is missing - not reported by scan_for_import_issues, a is used
+         """
+   without the docstrings all three imports are reported; with them only line 5, and the two example reads of a are
+   in the trace with doctests *)
+Definition P_doc : program :=
+  [SDoc 1 [SExpr 2 (ELoad 151 [152])] [153];
+   SImport 4 [([154], Some 151)]; SImport 5 [([155], Some 156)]; SImport 6 [([157], Some 153)];
+   SDef 7 158 [] P0 None [SDoc 8 [SExpr 9 (EOp [ELoad 159 []; ELoad 151 []])] []]].
+Example C02_nonvacuous_doc :
+  u2_block P_doc = true /\ dx_docs P_doc = true /\ imports_once [] [[]] P_doc = true /\
+  snd (finder [] [[]] true P_doc) = [(4%nat, ([154], [151])); (5%nat, ([155], [156])); (6%nat, ([157], [153]))] /\
+  snd (finder_doc [] [[]] P_doc) = [(5%nat, ([155], [156]))] /\
+  pysem [] [[]] P_doc = [] /\
+  pysem_doc [] [[]] P_doc = [(2%nat, 151, Bound (BImp 4 ([154], [151]))); (9%nat, 159, Unbound); (9%nat, 151, Bound (BImp 4 ([154], [151])))].
+Proof. vm_compute. repeat split. Qed.
+
+(* what dx_docs excludes: a doctest example with a scope of its own is scanned by the same finder that is wrong about
+   classes (F10-class): the example `class b: f = b.y` reads the imported b (the class is not bound yet), the finder
+   finds the class's own name in the class scope *)
+Definition P_doc_class : program :=
+  [SDoc 1 [SClass 2 161 [] [] [] [SAssign 3 [TName 162] (ELoad 161 [163])]] []; SImport 5 [([164], Some 161)]].
+Example C02_unused_sound_doc_refuted_class_example :
+  u2_block P_doc_class = true /\ dx_docs P_doc_class = false /\
+  In (5%nat, ([164], [161])) (snd (finder_doc [] [[]] P_doc_class)) /\
+  In (3%nat, 161, Bound (BImp 5 ([164], [161]))) (pysem_doc [] [[]] P_doc_class).
+Proof. vm_compute. repeat split; auto. Qed.
